@@ -247,6 +247,10 @@ def _pure(e, lambdas: bool = False) -> bool:
             continue
         if isinstance(n, ast.Call) and ast.unparse(n.func) in _CONST_CTORS and not n.keywords and all(isinstance(a, ast.Constant) for a in n.args):
             continue          # an immutable value built from constants (a compiled pattern): copying the expression copies the value
+        if isinstance(n, ast.Call) and getattr(n, "_sa_record_row", False):
+            # a row `Rec(a, b)` of a NamedTuple type of the module (marked by module_tables): an immutable value, pure when its arguments are
+            todo.extend(list(n.args) + [k.value for k in n.keywords])
+            continue
         if isinstance(n, (ast.Call, ast.Await, ast.Yield, ast.YieldFrom, ast.NamedExpr, ast.Lambda, ast.ListComp, ast.SetComp, ast.DictComp, ast.GeneratorExp)):
             return False
         todo.extend(ast.iter_child_nodes(n))
@@ -560,12 +564,24 @@ def module_tables(mod: ast.Module) -> dict:
     """name -> literal tuple/list bound exactly once at module level, never re-bound (`global`) or mutated anywhere in the
     module, whose elements are pure: usable like a local literal by unroll_static_loops"""
     cand, count = {}, {}
+    # NamedTuple classes of the module, defined once at its top level and never re-bound
+    defs = [st.name for st in mod.body if isinstance(st, (ast.ClassDef, ast.FunctionDef, ast.AsyncFunctionDef))]
+    rebound = {n.id for n in ast.walk(mod) if isinstance(n, ast.Name) and isinstance(n.ctx, (ast.Store, ast.Del))}
+    rectypes = {st.name for st in mod.body if isinstance(st, ast.ClassDef) and [ast.unparse(b) for b in st.bases] in (["NamedTuple"], ["typing.NamedTuple"])
+                and not st.decorator_list and not st.keywords and defs.count(st.name) == 1 and st.name not in rebound}
     for st in mod.body:
         for n in ast.walk(st) if not isinstance(st, (ast.FunctionDef, ast.AsyncFunctionDef, ast.ClassDef)) else []:
             if isinstance(n, ast.Name) and isinstance(n.ctx, (ast.Store, ast.Del)):
                 count[n.id] = count.get(n.id, 0) + 1
         if isinstance(st, ast.Assign) and len(st.targets) == 1 and isinstance(st.targets[0], ast.Name) and isinstance(st.value, (ast.Tuple, ast.List, ast.Dict)):
             seq = _literal_table(st.value)
+            if seq is not None and rectypes:
+                # rows built by calling a NamedTuple class of the module that has methods (namedtuple_rows leaves those calls in place):
+                # constructing the row runs nothing but tuple.__new__, so the row can be copied like a display
+                for c in ast.walk(st.value):
+                    if isinstance(c, ast.Call) and isinstance(c.func, ast.Name) and c.func.id in rectypes and not any(isinstance(a, ast.Starred) for a in c.args) \
+                            and all(k.arg for k in c.keywords):
+                        c._sa_record_row = True
             if seq is not None and all(_pure(e) for e in seq.elts):
                 cand[st.targets[0].id] = seq
     if not cand:
